@@ -7,7 +7,7 @@
 (* Strings are sequences of one-character strings (TLC cannot index strings).*)
 (*                                                                           *)
 (* DB is a small recorded history: task names with '_', '%', mixed case;     *)
-(* cycles 1 and 11; flows 1 and 2; statuses; completed outputs               *)
+(* cycles 1 and 11; flows 1, 2 and 12; statuses; completed outputs               *)
 (* {trigger -> message}.  A query is <<task pattern, cycle pattern, selector *)
 (* (status | trigger | message), flow filter>>.  TLC enumerates every query  *)
 (* and computes the expected result set; the harness builds the same DB as a *)
@@ -48,7 +48,7 @@ DB ==
     Row(fooXa, c1,  {1},    "succeeded", Std("succeeded")),
     Row(Foo_a, c1,  {1, 2}, "succeeded", Std("succeeded") \cup {<<"x", Msg>>}),
     Row(FOO_A, c11, {1},    "failed",    Std("failed")),
-    Row(fpo,   c1,  {1},    "succeeded", Std("succeeded")),
+    Row(fpo,   c1,  {12},   "succeeded", Std("succeeded")),                 \* flow 12 is neither flow 1 nor flow 2
     Row(fXXo,  c11, {2},    "succeeded", Std("succeeded") \cup {<<"y", "succeeded">>}),   \* message text = a std name
     Row(foo,   c1,  {1},    "waiting",   {}),
     Row(fo,    c11, {1},    "expired",   {<<"expired", "expired">>}) }
